@@ -30,6 +30,7 @@ class Ctx:
         self.others = {}  # divergences that speak about other properties: signature -> count
         self.assumptions = []
         self.exhaustive = True
+        self.distinct = 0     # distinct non-trivial cases (levels that need the count)
         self.gtirb = None
         self.notes = {}
 
@@ -157,6 +158,8 @@ def finish(ctx, level="model_checking", rule=None):
     }
     if rule:
         cov["rule"] = rule
+    if ctx.distinct:
+        cov["distinct_nontrivial"] = ctx.distinct
     cov.update(ctx.notes)
     ev = {
         "property_id": ctx.prop, "tier": ctx.tier, "seed": ctx.seed, "level": level,
